@@ -433,8 +433,10 @@ class RShift(Contract):
             if isinstance(loc1, VNone):
                 cl("location-kept", tm.FALSE)
                 continue
+            # from the statement (DESIGN 7.4), not from the code: only the `source` feature that *is* the whole circle --
+            # one part, [0, n) -- may stay as it is; a source-typed join that merely touches both ends must move
             whole_source = tm.and_(tm.eq(pre.get(f, "type").t, "source"), tm.eq(pre.get(loc0, "start").t, 0),
-                                   tm.eq(pre.get(loc0, "end").t, n))
+                                   tm.eq(pre.get(loc0, "end").t, n), tm.eq(pre.get(loc0, "parts").length, 1))
             if loc1 is loc0:
                 cl("only-whole-circle-source-left-as-is", whole_source)
                 continue
